@@ -11,7 +11,7 @@ for prop in sorted(os.listdir(root)):
         for f in ['patch.diff','demo.rs','notes.md']:
             if os.path.exists(src+'/'+f): shutil.copy(src+'/'+f,dst+'/'+f)
         notes=open(src+'/notes.md').read() if os.path.exists(src+'/notes.md') else ''
-        style={'a':'rewrite / refactor-style regression','b':'rewrite / refactor-style regression','c':'minimal in-place slip (1-3 lines)','d':'two cooperating sites','e':'regression in supporting code (helper, accessor, registry, context, tables)','f':'needs a narrow, specific input class to manifest','g':'a feature or generalisation that accidentally breaks the property','h':'a change on a failure or edge path','i':'edit confined to the small supporting files','j':'shows only with user-supplied registrations, context values or reuse','k':'slip in a branch the suite never executes','l':'visible through direct use of the public API (AST / Context reuse, Value, create_context!)','m':'an accident inside a legitimate, larger edit','n':'callee and caller disagree about a convention after a one-sided edit','o':'a performance optimisation whose saved work was not redundant','p':'a hardening / robustness change that rejects or rewrites valid input','q':'a changed default or a move towards leniency','r':'a copy-paste slip between sibling functions or arms','s':'an idiom / API clean-up (a near-equivalent library call that differs on an edge)','t':'a state-handling regression (state that survives or is lost where it must not)','u':'a boundary regression (only inputs exactly on the boundary break)','v':'a feature-interaction regression (needs two features at once)','w':'a regression in a less-visited corner (entry points, init order, derives / hand-written impls, small helpers, macro)','x':'an output-side regression (right decision, wrong thing returned or left behind)','y':'a regression in shared infrastructure (keyword / context / manager plumbing / token helpers)','z':'a type- or signature-level change (narrowed, widened or replaced type with conversions)'}.get(x,'')
+        style={'a':'rewrite / refactor-style regression','b':'rewrite / refactor-style regression','c':'minimal in-place slip (1-3 lines)','d':'two cooperating sites','e':'regression in supporting code (helper, accessor, registry, context, tables)','f':'needs a narrow, specific input class to manifest','g':'a feature or generalisation that accidentally breaks the property','h':'a change on a failure or edge path','i':'edit confined to the small supporting files','j':'shows only with user-supplied registrations, context values or reuse','k':'slip in a branch the suite never executes','l':'visible through direct use of the public API (AST / Context reuse, Value, create_context!)','m':'an accident inside a legitimate, larger edit','n':'callee and caller disagree about a convention after a one-sided edit','o':'a performance optimisation whose saved work was not redundant','p':'a hardening / robustness change that rejects or rewrites valid input','q':'a changed default or a move towards leniency','r':'a copy-paste slip between sibling functions or arms','s':'an idiom / API clean-up (a near-equivalent library call that differs on an edge)','t':'a state-handling regression (state that survives or is lost where it must not)','u':'a boundary regression (only inputs exactly on the boundary break)','v':'a feature-interaction regression (needs two features at once)','w':'a regression in a less-visited corner (entry points, init order, derives / hand-written impls, small helpers, macro)','x':'an output-side regression (right decision, wrong thing returned or left behind)','y':'a regression in shared infrastructure (keyword / context / manager plumbing / token helpers)','z':'a type- or signature-level change (narrowed, widened or replaced type with conversions)','A':'a size-dependent regression (correct below a threshold of 8-300 elements, bytes or levels)','B':'a regression in what counts as the same (case, prefix, scale, representation)'}.get(x,'')
         meta=dict(id='%s-%s'%(prop,x), property=prop, style=style, origin='independent sub-agent given only the property text and a scratch worktree of /repo',
                   needs_to_manifest=re.sub(r'\s+',' ',notes)[:700],
                   confirmed_by='tools/seed_confirm.sh in a scratch worktree at /repo HEAD %s: demo passes on the unchanged tree; with the patch the 187+7 suite still passes and the demo fails' % head,
